@@ -831,3 +831,12 @@ func (e *Engine) isRepoIface(t types.Type) bool {
 	}
 	return true
 }
+
+// contractPkg: the package in whose scope a contract's expressions are evaluated: the callee's own package for
+// in-repo functions, the package of the contract file for foreign (library) functions.
+func (e *Engine) contractPkg(callee *ssa.Function, c *Contract) *types.Package {
+	if e.inRepo(callee) && callee.Pkg != nil {
+		return callee.Pkg.Pkg
+	}
+	return e.pkgOfContract(c)
+}
